@@ -16,6 +16,7 @@ VERIF = os.path.dirname(os.path.dirname(os.path.abspath(__file__)))
 LEAN = os.path.join(VERIF, 'lean')
 DRIVER = os.path.join(LEAN, '.lake', 'build', 'bin', 'driver')
 REPO = os.environ.get('ASN1TOOLS_REPO', '/repo')
+OUT = os.environ.get('VERIF_OUT', VERIF)     # where evidence/ and replays/ are written
 ALLOWED_AXIOMS = {'propext', 'Classical.choice', 'Quot.sound'}
 FORBIDDEN = re.compile(r'\b(sorry|admit|native_decide|bv_decide|implemented_by)\b|^axiom |unsafe |maxHeartbeats 0')
 
@@ -260,6 +261,67 @@ class Ctx:
         self.corr_disagreements.append({'relation': relation, 'detail': detail})
 
 
+def parallel_map(fn, items, nproc=None):
+    """Run fn over items in forked worker processes (results in order).  fn must be a top-level function."""
+    import multiprocessing as mp
+    nproc = nproc or min(14, max(1, (os.cpu_count() or 2) - 2))
+    if len(items) <= 1 or nproc <= 1:
+        return [fn(x) for x in items]
+    ctx = mp.get_context('fork')
+    with ctx.Pool(nproc) as pool:
+        return pool.map(fn, items, chunksize=1)
+
+
+class Part:
+    """Picklable partial result of a worker: merged into the Ctx by `merge`."""
+
+    def __init__(self):
+        self.cases = []          # (key, nontrivial)
+        self.hist = {}
+        self.violations = []
+        self.known = []          # (fid, what)
+        self.disagreements = []
+        self.samples = []
+
+    def count(self, key, n=1):
+        self.hist[key] = self.hist.get(key, 0) + n
+
+    def case(self, key, nontrivial=True):
+        self.cases.append((hashlib.sha1(repr(key).encode()).digest()[:8] if nontrivial else None))
+
+    def violation(self, what, replay):
+        if len(self.violations) < 20:
+            self.violations.append((what, replay))
+
+    def known_finding(self, fid, what):
+        self.known.append((fid, what))
+
+    def disagreement(self, relation, detail):
+        if len(self.disagreements) < 20:
+            self.disagreements.append({'relation': relation, 'detail': detail})
+
+    def sample(self, s, limit=3):
+        if len(self.samples) < limit:
+            self.samples.append(s)
+
+
+def merge(ctx, parts):
+    for p in parts:
+        for h in p.cases:
+            ctx.evaluations += 1
+            if h is not None:
+                ctx.nontrivial.add(h)
+        for k, v in p.hist.items():
+            ctx.count(k, v)
+        for w, r in p.violations:
+            ctx.violation(w, r)
+        for fid, what in p.known:
+            ctx.known_finding(fid, what)
+        ctx.corr_disagreements += p.disagreements
+        for smp in p.samples:
+            ctx.sample(smp)
+
+
 def load_known():
     path = os.path.join(VERIF, 'known_findings.json')
     if not os.path.exists(path):
@@ -272,10 +334,10 @@ def load_known():
 
 
 def write_replay(prop, what, replay):
-    os.makedirs(os.path.join(VERIF, 'replays'), exist_ok=True)
+    os.makedirs(os.path.join(OUT, 'replays'), exist_ok=True)
     body = json.dumps({'property': prop, 'what': what, 'replay': replay}, indent=1, sort_keys=True, default=repr)
     h = hashlib.sha1(body.encode()).hexdigest()[:12]
-    path = os.path.join(VERIF, 'replays', '%s-%s.json' % (prop, h))
+    path = os.path.join(OUT, 'replays', '%s-%s.json' % (prop, h))
     with open(path, 'w') as f:
         f.write(body + '\n')
     return path
@@ -340,8 +402,8 @@ def finish(ctx, t0, level='proof'):
         'wall_s': round(time.time() - t0, 2),
         'violations': len(seen) + (1 if exit_code == 1 and not seen else 0),
     }
-    os.makedirs(os.path.join(VERIF, 'evidence'), exist_ok=True)
-    with open(os.path.join(VERIF, 'evidence', prop + '.json'), 'w') as f:
+    os.makedirs(os.path.join(OUT, 'evidence'), exist_ok=True)
+    with open(os.path.join(OUT, 'evidence', prop + '.json'), 'w') as f:
         json.dump(ev, f, indent=1, sort_keys=True, default=repr)
         f.write('\n')
     for l in lines:
